@@ -90,7 +90,7 @@ def run(chk):
         return chk.finish("proof", nobl, ndis, axioms, RULE)
     drv = wire.Driver()
     rng = random.Random(chk.seed + 3)
-    n = 120 if chk.tier == "quick" else 4000
+    n = 120 if chk.tier == "quick" else 1200
     made = 0
     while made < n:
         base = gen.gen_model(rng)
@@ -98,7 +98,7 @@ def run(chk):
             continue
         made += 1
         muts = ([gen.mutate_value(rng, base) for _ in range(6)] + [gen.mutate_structure(rng, base) for _ in range(5)]
-                + gen.mutate_targeted(rng, base)[:40 if chk.tier == 'quick' else 400])
+                + gen.mutate_targeted(rng, base)[:40 if chk.tier == 'quick' else 120])
         for kind, m in muts:
             if kind == "noop":
                 continue
